@@ -366,6 +366,19 @@ class Mon(object):
         REC.counts['history:reparse'] += 1
         LAST_HISTORY.append('object #%d: parsed %r in between and then its own text again' % (self.oid, other))
 
+    def _other_text(self, h):
+        """(other text, own text) for a re-parse around the prehistory evaluation, or None (same conditions as _reparse;
+        20% of the offline prehistories)."""
+        sd = self.sd
+        text = sd.get('text', '')
+        if not REPARSE or self._pastified or h.random() >= 0.2:
+            return None
+        if ';' in text or 'const' in text or sd.get('subspecs') or not sd.get('vars') or sd.get('struct'):
+            return None
+        v = sd['vars'][0]
+        other = '%s((%s <= 2) or (historically (%s >= 3)))' % ('out = ' if text.lstrip().startswith('out =') else '', v, v)
+        return other, text
+
     def _prehistory(self, h, method, args):
         """See HISTORY above.  Never raises; what it did is appended to LAST_HISTORY."""
         s, what = self.spec, None
@@ -410,13 +423,22 @@ class Mon(object):
                 if half is not None:
                     what += ' under the sampling period %s%s' % half
                     s.set_sampling_period(half[0], half[1], real[2] if len(real) > 2 else 0.1)
+                around = self._other_text(h) if (half is None and ounit is None) else None
                 try:
+                    if around:
+                        # ... and under ANOTHER formula: the object parses B, evaluates, and parses its own text again
+                        s.spec = around[0]
+                        s.parse()
+                        what += ' while its text was %r (its own text parsed again afterwards)' % around[0]
                     s.evaluate(d2)
                 finally:
                     if half is not None:
                         s.set_sampling_period(*real)
                     if ounit is not None:
                         s.unit = runit
+                    if around:
+                        s.spec = around[1]
+                        s.parse()
             elif method == 'evaluate' and args and all(isinstance(a, (list, tuple)) and len(a) == 2 for a in args):
                 a2 = []
                 for name, samples in args:
